@@ -406,6 +406,10 @@ func literalTableCases() []RTCase {
 			RTCase{Text: "$[" + l + "]", Docs: []string{"[1,2,3]"}},
 		)
 	}
+	// levels, subscripts and arguments at the int32 limit (the largest the syntax admits) keep their value on every word size
+	for _, t := range []string{"$.**{2147483647}", "$.**{2147483646 to 2147483647}", "$.**{0 to 2147483647}", "$.**{2147483647 to last}", "$.**{1 to 2147483646}", "$[2147483647]", "$[-2147483648 to 2147483647]", "$.time(2147483647)", "$.decimal(1000, -1000)", "$[4294967295]", "$[9223372036854775807]"} {
+		out = append(out, RTCase{Text: t, Docs: []string{`{"a":[1,{"b":2}],"c":"x"}`, `[1,[2,[3]]]`}}, RTCase{Text: "strict " + t, Docs: []string{`{"a":[1,{"b":2}],"c":"x"}`}})
+	}
 	for _, a := range []int{0, 1, 2, 3} {
 		for _, b := range []int{0, 1, 2, 3} {
 			out = append(out, RTCase{Text: fmt.Sprintf("$.**{%d to %d}", a, b), Docs: []string{`{"a":[1,{"b":2}]}`}})
